@@ -130,4 +130,24 @@ def search(payload):
                     prob.append('more than two probes')
                 if prob:
                     return {'found': True, 'input': {'reads': [str(x) for x in reads], 'object_reused': reuse}, 'observed': '; '.join(prob) + f' (err {e.err!r})', 'expected': f'{ok}', 'tried': tried}
+    if what == 'connect':
+        # retry after "firmware too old": the object must not come out as connected-with-no-error
+        old = (ebb3_serial.serial.Serial, ebb3_serial.comports)
+        try:
+            ebb3_serial.comports = lambda: [('/dev/ttyACM0', 'EiBotBoard', 'USB VID:PID=04D8:FD92')]
+            fp = FakePort([board('2.8.1')])
+            ebb3_serial.serial.Serial = lambda *a, **k: fp
+            e = ebb3_serial.EBB3()
+            r1 = e.connect()
+            r2 = e.connect()
+            tried += 1
+            if r1 or (r2 and e.err is None) or any(w != b'v\r' for w in fp.writes):
+                return {'found': True, 'input': 'connect() twice to a board with firmware 2.8.1', 'observed': f'first {r1!r}, second {r2!r}, err {e.err!r}, writes {fp.writes}',
+                        'expected': 'False, then not (True with no error); only the probe sent', 'tried': tried}
+            ok = e.command('SM,1,0,0')
+            if ok or any(w != b'v\r' for w in fp.writes):
+                return {'found': True, 'input': 'connect() twice to a board with firmware 2.8.1, then command()', 'observed': f'command returned {ok!r}, writes {fp.writes}',
+                        'expected': 'blocked', 'tried': tried}
+        finally:
+            ebb3_serial.serial.Serial, ebb3_serial.comports = old
     return {'found': False, 'tried': tried}
